@@ -1,5 +1,5 @@
 (* C09 - Requests are the protocol's, go to the right port, and echo challenges.
-   Rows proved so far: Valve. *)
+   Rows proved: every UDP protocol of the library. *)
 From GD Require Import Base.Prelude Model.Strings Model.Buffer Model.Net Model.Valve Model.Quake Model.Unreal2 Proofs.Msafe Proofs.ValveTotal Proofs.QuakeTotal Proofs.Unreal2Total.
 
 (* every datagram the query emits, for any script: addressed to the query's
@@ -47,3 +47,56 @@ Example c09_ex_requests :
 Proof.
   split; [reflexivity|split; [reflexivity|]]. exists 86. split; [right; right; reflexivity|right; exists [1; 2; 3; 4]; reflexivity].
 Qed.
+
+(* ---- GameSpy 1 / 2 / 3, JC2-MP, Savage 2, Mindustry, Minecraft Bedrock, The Ship, Battalion 1944 ----
+   udp_query_contract q port reqs, in full: from the initial state, for every script, q returns a value
+   or an error, every datagram it sends goes to [port] and is in the request language [reqs], it makes
+   no field-driven reservation and opens no TCP connection. *)
+From GD Require Import Model.Gamespy Model.Games Model.View Model.Minecraft Proofs.GamesTotal Proofs.GamespyTotal Proofs.ValveGamesTotal.
+Theorem c09_udp_query_contract_means : forall A (q : M A) port reqs,
+  udp_query_contract q port reqs <->
+  (forall u tc sf,
+     safe (fst (q (net_init u tc sf)))
+     /\ (forall p d, In (SendEv p d) (n_trace (snd (q (net_init u tc sf)))) -> p = port /\ reqs d)
+     /\ reserves (snd (q (net_init u tc sf))) = []
+     /\ (forall p c, ~ In (NewTcp p c) (n_trace (snd (q (net_init u tc sf)))))).
+Proof. exact (fun A q port reqs => conj (fun x => x) (fun x => x)). Qed.
+Print Assumptions c09_udp_query_contract_means.
+
+(* the GameSpy 3 request language: the handshake FE FD 09 <session 00 00 00 01>, or the data request
+   FE FD 00 <session> <challenge as 4 big-endian bytes, absent when the server sent 0> <payload> *)
+Theorem c09_gs3_language_means : forall payload d,
+  gs3_language payload d <->
+  (d = [254; 253; 9; 0; 0; 0; 1]
+   \/ exists c : option Z, d = [254; 253; 0; 0; 0; 0; 1] ++ (match c with Some z => be_bytes 4 (of_signed 32 z) | None => [] end) ++ payload).
+Proof. exact (fun payload d => conj (fun x => x) (fun x => x)). Qed.
+Print Assumptions c09_gs3_language_means.
+
+Theorem c09_gamespy_requests : forall port t, settings_ok t ->
+  udp_query_contract (gs1_query port t) port (fun d => d = str "\status\xserverquery")
+  /\ udp_query_contract (gs2_query port t) port (fun d => d = [254; 253; 0; 0; 0; 0; 1; 255; 255; 255])
+  /\ udp_query_contract (gs3_query port t) port (gs3_language [255; 255; 255; 1])
+  /\ udp_query_contract (gs3_query_vars port t) port (gs3_language [255; 255; 255; 1])
+  /\ udp_query_contract (jc2m_query port t) port (gs3_language [255; 255; 255; 2]).
+Proof.
+  exact (fun port t H => conj (gamespy1_contract port t H) (conj (gamespy2_contract port t H) (conj (gamespy3_contract port t H)
+          (conj (gamespy3_vars_contract port t H) (jc2m_contract port t H))))).
+Qed.
+Print Assumptions c09_gamespy_requests.
+
+Theorem c09_single_game_requests : forall port t, settings_ok t ->
+  udp_query_contract (savage2_query port t) port (fun d => d = [1])
+  /\ udp_query_contract (mindustry_query port t) port (fun d => d = [254; 1])
+  /\ udp_query_contract (query_bedrock port t) port (fun d => d = bedrock_ping).
+Proof. exact (fun port t H => conj (savage2_contract port t H) (conj (mindustry_contract port t H) (bedrock_contract port t H))). Qed.
+Print Assumptions c09_single_game_requests.
+
+(* The Ship and Battalion 1944 send what the Valve query sends *)
+Theorem c09_valve_games_requests : forall bz, (forall p s, safe (bz p s)) -> forall port t, settings_ok t ->
+  (forall u tc sf p d, In (SendEv p d) (n_trace (snd (theship_query bz port t (net_init u tc sf)))) -> p = port /\ valve_request d)
+  /\ (forall u tc sf p d, In (SendEv p d) (n_trace (snd (battalion_query bz port (net_init u tc sf)))) -> p = port /\ valve_request d).
+Proof.
+  exact (fun bz Hbz port t Hs => conj (fun u tc sf => proj1 (proj2 (theship_contract bz Hbz port t Hs u tc sf)))
+                                      (fun u tc sf => proj1 (proj2 (battalion_contract bz Hbz port u tc sf)))).
+Qed.
+Print Assumptions c09_valve_games_requests.
